@@ -37,6 +37,12 @@ pub fn features() -> Vec<&'static str> {
     v
 }
 
+static REQ_START: std::sync::atomic::AtomicU64 = std::sync::atomic::AtomicU64::new(0);
+
+fn now_ms() -> u64 {
+    std::time::SystemTime::now().duration_since(std::time::UNIX_EPOCH).map(|d| d.as_millis() as u64).unwrap_or(0)
+}
+
 pub struct Out {
     w: std::io::BufWriter<std::io::Stdout>,
 }
@@ -87,6 +93,18 @@ fn main() {
         "exec" => {
             // suppress the default panic message; panics are reported as answers
             std::panic::set_hook(Box::new(|_| {}));
+            // watchdog: a request that does not come back (non-termination is a failing input)
+            // ends the process with status 124 after reporting `= hang`
+            let limit: u64 = std::env::var("VERIF_REQ_TIMEOUT").ok().and_then(|x| x.parse().ok()).unwrap_or(30);
+            std::thread::spawn(move || loop {
+                std::thread::sleep(std::time::Duration::from_millis(200));
+                let started = REQ_START.load(std::sync::atomic::Ordering::SeqCst);
+                if started != 0 && now_ms().saturating_sub(started) > limit * 1000 {
+                    let _ = std::io::stdout().write_all(b"= hang\n~ hang\n");
+                    let _ = std::io::stdout().flush();
+                    std::process::exit(124);
+                }
+            });
             out.line(&format!("features {}", features().join(" ")));
             let stdin = std::io::stdin();
             let mut bdd = fam_bdd::Exec::default();
@@ -105,6 +123,7 @@ fn main() {
                     continue;
                 }
                 let ws: Vec<&str> = l.split(' ').collect();
+                REQ_START.store(now_ms(), std::sync::atomic::Ordering::SeqCst);
                 let handled = bdd.exec(&ws, l, &mut out)
                     || adf.exec(&ws, l, &mut out)
                     || ng.exec(&ws, l, &mut out)
@@ -116,6 +135,7 @@ fn main() {
                     out.line(l);
                     out.line("= unknown-request");
                 }
+                REQ_START.store(0, std::sync::atomic::Ordering::SeqCst);
             }
         }
         _ => {
